@@ -77,10 +77,35 @@ func (t *c04Timers) fire(j int) int {
 	return len(run)
 }
 
+// c04Log is the linearised record of what the real runner did (in the order the goroutines got here); the Lean driver
+// replays it through the model's transition system.
+type c04Log struct {
+	mu   sync.Mutex
+	toks []string
+}
+
+func (l *c04Log) add(tok string) {
+	l.mu.Lock()
+	l.toks = append(l.toks, tok)
+	l.mu.Unlock()
+}
+
+func (l *c04Log) take() string {
+	l.mu.Lock()
+	defer l.mu.Unlock()
+	if len(l.toks) == 0 {
+		return "-"
+	}
+	s := strings.Join(l.toks, " ")
+	l.toks = nil
+	return s
+}
+
 type c04Item struct {
 	recs      [][]byte
 	barrier   uint64
 	isBar     bool
+	isWm      bool // a watermark tick: fired through the runner's tick channel when the reader reaches this item
 	thenAwait bool // after handing out recs, hand out empty reads until Checkpoint() has been called
 }
 
@@ -93,6 +118,9 @@ type c04Reader struct {
 	waiting  bool // the read loop is blocked in ReadEvents with nothing queued
 	closed   bool
 	startCkp func(id uint64)
+	log      *c04Log
+	reqIDs   []uint64 // checkpoint requests issued and not yet snapshotted, in order
+	tick     func() // delivers one watermark tick to the runner's event loop (blocks until the loop takes it)
 	returned int   // the reader's cursor: records handed out by ReadEvents so far
 	ckpts    []int // cursor at every Checkpoint() call, in order
 }
@@ -104,7 +132,17 @@ func (r *c04Reader) Checkpoint() [][]byte {
 	defer r.mu.Unlock()
 	r.awaiting = false
 	r.ckpts = append(r.ckpts, r.returned)
+	if len(r.reqIDs) > 0 {
+		r.log.add(fmt.Sprintf("K:%d", r.reqIDs[0]))
+		r.reqIDs = r.reqIDs[1:]
+	}
 	return nil
+}
+
+func (r *c04Reader) request(id uint64) {
+	r.mu.Lock()
+	r.reqIDs = append(r.reqIDs, id)
+	r.mu.Unlock()
 }
 
 func (r *c04Reader) ReadEvents() ([][]byte, error) {
@@ -124,13 +162,31 @@ func (r *c04Reader) ReadEvents() ([][]byte, error) {
 		if len(r.queue) > 0 {
 			it := r.queue[0]
 			r.queue = r.queue[1:]
+			if it.isWm {
+				// hand back empty reads until the loop's select has taken the tick, so that its place in the read order is
+				// exactly "after everything returned so far"
+				r.awaiting = true
+				r.mu.Unlock()
+				go func() {
+					r.tick()
+					r.mu.Lock()
+					r.awaiting = false
+					r.mu.Unlock()
+					r.cond.Broadcast()
+				}()
+				return nil, nil
+			}
 			if it.isBar {
 				r.awaiting = true
+				r.reqIDs = append(r.reqIDs, it.barrier)
 				r.mu.Unlock()
 				r.startCkp(it.barrier)
 				return nil, nil
 			}
 			r.returned += len(it.recs)
+			if len(it.recs) > 0 {
+				r.log.add(fmt.Sprintf("R:%d", len(it.recs)))
+			}
 			if it.thenAwait {
 				r.awaiting = true // a checkpoint request is already on its way: nothing more until Checkpoint()
 			}
@@ -254,6 +310,7 @@ func c04ParseRec(s string) (id int, key []byte, cnt int) {
 
 type c04Op struct {
 	proto.UnimplementedOperator
+	log    *c04Log
 	idx    int
 	mu     sync.Mutex
 	cond   *sync.Cond
@@ -270,11 +327,32 @@ type c04Op struct {
 
 func (o *c04Op) ID() string   { return fmt.Sprintf("op%d", o.idx) }
 func (o *c04Op) Host() string { return "h" }
+func c04EvText(ev *workerpb.Event) string {
+	switch e := ev.Event.(type) {
+	case *workerpb.Event_KeyedEvent:
+		return string(e.KeyedEvent.Value)
+	case *workerpb.Event_CheckpointBarrier:
+		return fmt.Sprintf("b%d", e.CheckpointBarrier.CheckpointId)
+	case *workerpb.Event_Watermark:
+		return "w"
+	}
+	return "sc"
+}
+
 func (o *c04Op) HandleEventBatch(ctx context.Context, batch []*workerpb.Event) error {
 	if atomic.AddInt32(&o.active, 1) > 1 {
 		o.overl.Store(true) // two concurrent HandleEventBatch calls on one operator: the sender goroutine is not serialising
 	}
 	defer atomic.AddInt32(&o.active, -1)
+	txt := make([]string, len(batch))
+	for i, ev := range batch {
+		txt[i] = c04EvText(ev)
+	}
+	if len(txt) == 0 {
+		txt = []string{"-"}
+	}
+	o.log.add(fmt.Sprintf("D:%d:%s", o.idx, strings.Join(txt, ",")))
+	defer o.log.add(fmt.Sprintf("X:%d", o.idx))
 	o.mu.Lock()
 	defer o.mu.Unlock()
 	for o.held && !o.free.Load() {
@@ -292,7 +370,8 @@ func (o *c04Op) HandleEventBatch(ctx context.Context, batch []*workerpb.Event) e
 			o.got = append(o.got, fmt.Sprintf("b%d", e.CheckpointBarrier.CheckpointId))
 			o.bars++
 		case *workerpb.Event_Watermark:
-			o.wms++ // ticker-driven (real time): not part of the compared stream
+			o.got = append(o.got, "w") // ticks are fired by the harness (the 200 ms ticker is replaced), so they have a place
+			o.wms++
 		case *workerpb.Event_SourceComplete:
 			o.got = append(o.got, "sc")
 		}
@@ -384,6 +463,7 @@ func c04Impl(c lib.Case) []string {
 	defer cancel()
 	var free atomic.Bool
 	var overlap atomic.Bool
+	evlog := &c04Log{}
 	tm := &c04Timers{}
 	hooks := &c04Hooks{next: map[string]bool{}, parked: map[string][]chan struct{}{}}
 	verifhook.Set(hooks.at)
@@ -391,10 +471,10 @@ func c04Impl(c lib.Case) []string {
 	handler := &c04Handler{}
 	ops := make([]*c04Op, nOps)
 	for i := range ops {
-		ops[i] = &c04Op{idx: i, free: &free, overl: &overlap}
+		ops[i] = &c04Op{idx: i, free: &free, overl: &overlap, log: evlog}
 		ops[i].cond = sync.NewCond(&ops[i].mu)
 	}
-	reader := &c04Reader{}
+	reader := &c04Reader{log: evlog}
 	reader.cond = sync.NewCond(&reader.mu)
 	var d time.Duration
 	if delay {
@@ -421,6 +501,20 @@ func c04Impl(c lib.Case) []string {
 	if err := sr.HandleDeploy(ctx, &workerpb.DeploySourceRunnerRequest{Operators: nodes, KeyGroupCount: int32(kgc), Sources: []*jobconfigpb.Source{{}}}); err != nil {
 		panic(err)
 	}
+	// the runner's 200 ms watermark ticker is replaced by a channel the harness fires (verif-tagged accessor)
+	tickCh := make(chan time.Time)
+	sr.VerifSetWatermarkTicks(tickCh)
+	reader.tick = func() {
+		// T: the tick is due (from here on the reader hands out nothing until the loop has taken it, so its place in the read
+		// order is fixed); W: the loop's select has taken it. W is logged by this goroutine and may come after events the
+		// loop and the router produce once they have the tick.
+		evlog.add("T")
+		select {
+		case tickCh <- time.Now():
+			evlog.add("W") // the loop's select has taken the tick
+		case <-ctx.Done():
+		}
+	}
 	if err := sr.HandleAssignSplits([]*workerpb.SourceSplit{{SplitId: "s0", SourceId: "src"}}); err != nil {
 		panic(err)
 	}
@@ -440,7 +534,7 @@ func c04Impl(c lib.Case) []string {
 		}
 	}()
 
-	expKeyed, expBars := 0, 0
+	expKeyed, expBars, expWms := 0, 0, 0
 	type recInfo struct{ id, cnt int }
 	var recOrder []recInfo // read order, as scripted
 	var barIDs []int       // barrier ids in request order
@@ -492,7 +586,7 @@ func c04Impl(c lib.Case) []string {
 					if g == fmt.Sprintf("b%d", id) {
 						break
 					}
-					if g[0] != 'b' && g != "sc" {
+					if g[0] != 'b' && g != "sc" && g != "w" {
 						rid, _ := strconv.Atoi(strings.SplitN(g, ".", 2)[0])
 						seen[rid] = true
 					}
@@ -545,12 +639,46 @@ func c04Impl(c lib.Case) []string {
 			barIDs = append(barIDs, id)
 			recs := addRecs(f[2:])
 			if waitFor(reader.drained, 50*time.Millisecond) {
+				reader.request(uint64(id))
 				sr.HandleStartCheckpoint(ctx, uint64(id))
 				reader.push(c04Item{recs: recs, thenAwait: true})
 			} else { // the loop is held up elsewhere: same read order through the reader-driven barrier
 				reader.push(c04Item{recs: recs})
 				reader.push(c04Item{isBar: true, barrier: uint64(id)})
 			}
+		case len(f) == 1 && f[0] == "wm":
+			expWms++
+			reader.push(c04Item{isWm: true})
+		case len(f) >= 2 && f[0] == "midwm":
+			// a watermark tick becomes due while the loop is in the middle of enqueueing this read (parked at rf.flush.mid):
+			// the tick is a case of the loop's select, so the watermark comes after all records of the read
+			expWms++
+			recs := addRecs(f[1:])
+			if !waitFor(reader.drained, 50*time.Millisecond) {
+				reader.push(c04Item{recs: recs})
+				reader.push(c04Item{isWm: true})
+				break
+			}
+			const mid = "rf.flush.mid"
+			before, n0 := reader.cursor(), parkedAt(mid)
+			hooks.mu.Lock()
+			hooks.next[mid] = true
+			hooks.mu.Unlock()
+			reader.push(c04Item{recs: recs})
+			waitFor(func() bool { return parkedAt(mid) > n0 || (reader.cursor() == before+len(recs) && reader.drained()) }, 50*time.Millisecond)
+			if reader.cursor() == before+len(recs) {
+				reader.setAwaiting()
+				go func() {
+					reader.tick()
+					reader.mu.Lock()
+					reader.awaiting = false
+					reader.mu.Unlock()
+					reader.cond.Broadcast()
+				}()
+			} else {
+				reader.push(c04Item{isWm: true})
+			}
+			hooks.release(mid)
 		case len(f) >= 3 && f[0] == "midbar":
 			// checkpoint request arrives while the loop is in the middle of enqueueing this read, held up by a flush of the
 			// key-by batcher (parked at rf.flush.mid). Read order: all records of the read, then the barrier.
@@ -572,6 +700,7 @@ func c04Impl(c lib.Case) []string {
 			waitFor(func() bool { return parkedAt(mid) > n0 || (reader.cursor() == before+len(recs) && reader.drained()) }, 50*time.Millisecond)
 			if reader.cursor() == before+len(recs) {
 				reader.setAwaiting()
+				reader.request(uint64(id))
 				sr.HandleStartCheckpoint(ctx, uint64(id))
 			} else {
 				reader.push(c04Item{isBar: true, barrier: uint64(id)})
@@ -639,14 +768,15 @@ func c04Impl(c lib.Case) []string {
 			for !done && time.Now().Before(deadline) {
 				tm.fire(-1)
 				time.Sleep(100 * time.Microsecond)
-				k, b := 0, 0
+				k, b, w := 0, 0, 0
 				for _, o := range ops {
 					o.mu.Lock()
 					k += o.keyed
 					b += o.bars
+					w += o.wms
 					o.mu.Unlock()
 				}
-				done = reader.drained() && k >= expKeyed && b >= expBars*nOps
+				done = reader.drained() && k >= expKeyed && b >= expBars*nOps && w >= expWms*nOps
 			}
 			if done {
 				// anything delivered twice would still be on its way: give late duplicates a moment, then read the streams
@@ -654,14 +784,16 @@ func c04Impl(c lib.Case) []string {
 					tm.fire(-1)
 					time.Sleep(200 * time.Microsecond)
 				}
-				res = streams() + " | " + cutCheck()
+				res = streams() + " | " + cutCheck() + " replay=ok"
 			} else {
 				c04Timeouts.Add(1)
-				res = "timeout " + streams() + " | " + cutCheck()
+				res = "timeout " + streams() + " | " + cutCheck() + " replay=ok"
 			}
 			if overlap.Load() {
 				res = "concurrent-HandleEventBatch " + res
 			}
+			// the linearised log of what the runner did in this case: replayed by the driver through the model
+			res = evlog.take() + " | " + res
 		default:
 			res = "bad-op"
 		}
@@ -696,8 +828,12 @@ func c04BackPressure(r *lib.Rng, rounds int) lib.Case {
 		}
 		c.Ops = append(c.Ops, recs(size), "nap 2", recs(size), "nap 2")
 		if r.Chance(1, 3) {
-			c.Ops = append(c.Ops, fmt.Sprintf("barrier %d", bar)) // a broadcast in the overtaking partial batch
-			bar++
+			if r.Bool() {
+				c.Ops = append(c.Ops, "wm") // a broadcast in the overtaking partial batch
+			} else {
+				c.Ops = append(c.Ops, fmt.Sprintf("barrier %d", bar))
+				bar++
+			}
 		} else {
 			c.Ops = append(c.Ops, recs(1))
 		}
@@ -737,9 +873,13 @@ func c04Ckpt(r *lib.Rng, rounds int) lib.Case {
 			c.Ops = append(c.Ops, fmt.Sprintf("midbar %d %s", bar, recs(size+r.Range(1, 3))))
 			bar++
 		case 4:
-			c.Ops = append(c.Ops, "read "+recs(r.Range(1, 4)))
+			if r.Bool() {
+				c.Ops = append(c.Ops, "read "+recs(r.Range(1, 4)))
+			} else {
+				c.Ops = append(c.Ops, "midwm "+recs(size+r.Range(1, 3)))
+			}
 		default:
-			c.Ops = append(c.Ops, "fire -1", "nap 1")
+			c.Ops = append(c.Ops, lib.Pick(r, []string{"fire -1", "wm"}), "nap 1")
 		}
 	}
 	c.Ops = append(c.Ops, "end")
@@ -801,8 +941,12 @@ func c04Gen(r *lib.Rng, tier string, i int) lib.Case {
 				c.Ops = append(c.Ops, "park "+l, fmt.Sprintf("fire %d", r.Intn(3)), "await "+l)
 			}
 		case k == wRead+wFire+wFin+wGate+wPark:
-			c.Ops = append(c.Ops, fmt.Sprintf("barrier %d", bar))
-			bar++
+			if r.Chance(1, 3) {
+				c.Ops = append(c.Ops, "wm")
+			} else {
+				c.Ops = append(c.Ops, fmt.Sprintf("barrier %d", bar))
+				bar++
+			}
 		default:
 			c.Ops = append(c.Ops, "yield")
 		}
@@ -833,11 +977,13 @@ func propC04() *lib.Prop {
 				{Header: "M C04 1 8 2 1", Tags: []string{"ckpt"}, Ops: []string{"free", "midbar 1 1:61:1 2:61:1 3:61:1 4:61:1", "read 5:61:1", "end"}},
 				// requests arriving while a read is being fetched, several in a row
 				{Header: "M C04 2 8 2 1", Tags: []string{"ckpt"}, Ops: []string{"free", "readbar 1 1:61:1", "readbar 2 2:62:1 3:61:1", "readbar 3 4:61:1", "readbar 4 5:62:1", "readbar 5 6:61:1 7:61:1", "readbar 6 8:62:1", "end"}},
+				{Header: "M C04 2 8 2 1", Tags: []string{"watermark"}, Ops: []string{"free", "read 1:61:1", "wm", "read 2:62:1 3:61:1", "midwm 4:61:1 5:61:1 6:62:1", "read 7:61:1", "wm", "barrier 1", "end"}},
 				{Header: "M C04 1 4 1 1", Tags: []string{"basic"}, Ops: []string{"read 1:61:1 2:62:2 3:61:0", "barrier 1", "read 4:61:1", "end"}},
 			}
 		},
-		Gen:  c04Gen,
-		Impl: c04Impl,
+		Gen:      c04Gen,
+		Impl:     c04Impl,
+		FeedImpl: true,
 		Nontrivial: func(c lib.Case, implOut []string) bool {
 			fire, stir := false, false
 			keys := map[string]int{}
@@ -849,9 +995,9 @@ func propC04() *lib.Prop {
 					fire = true
 				case "fin", "park":
 					stir = true
-				case "read", "readbar", "midbar":
+				case "read", "readbar", "midbar", "midwm":
 					recs := f[1:]
-					if f[0] != "read" {
+					if f[0] == "readbar" || f[0] == "midbar" {
 						recs, stir, fire = f[2:], true, true
 					}
 					for _, r := range recs {
